@@ -7,7 +7,7 @@
      accept only with min <= ttl <= max; |live of a peer| <= mpp; |live| <= mt; re-registering an existing
      (peer, namespace) with a valid ttl is never refused; an expiry is reported only for a live registration
      whose ttl has elapsed (a superseded one must not expire later); discovery returns only live, unexpired
-     registrations (of the requested namespace, at most `limit`), none of them already returned under the cookie.
+     registrations (of the requested namespace, at most limit), none of them already returned under the cookie.
    Anything the statement leaves open (refusing a new registration below the limits, which error code, which
    subset discovery returns, cookie errors) is accepted. *)
 EXTENDS TraceIO, FiniteSets
